@@ -31,6 +31,50 @@ def site_class(sop):
     return ":".join([sop[0], sop[1]] + [pc(x) + ("_delete" if str(x).endswith("_delete") else "") for x in sop[2:]])
 
 
+class ClassFault:
+    """One injected OSError identified by (operation class, occurrence) within one thread's operations."""
+
+    def __init__(self, spec):
+        self.spec = tuple(spec) if spec else None
+        self.counts = {}
+        self.persist = set()
+        self.fired = 0
+
+    def check(self, op, real):
+        if self.spec is None or not is_fault_site(op):
+            return
+        k = site_class(op)
+        n = self.counts.get(k, 0)
+        self.counts[k] = n + 1
+        dest = real[-1] if real else None
+        e = ERRNOS[self.spec[2]]
+        if k == self.spec[0] and n == self.spec[1]:
+            self.fired += 1
+            if len(self.spec) > 3 and self.spec[3] and dest is not None:
+                self.persist.add(dest)
+            raise OSError(e, os.strerror(e) + " (injected)")
+        if dest is not None and dest in self.persist and not (self.spec[2] == "ENOSPC" and op[0] == "remove"):
+            # (a full file system keeps failing creations and writes, but files can still be removed)
+            self.fired += 1
+            raise OSError(e, os.strerror(e) + " (injected, persistent)")
+
+
+class SeqFaultWorker(env.BaseWorker):
+    """Single controlled thread whose only job is to inject a ClassFault (sequential reference runs)."""
+
+    def __init__(self, spec):
+        super().__init__("T1")
+        self.cf = ClassFault(spec)
+
+    def point(self, op, pred=None):
+        if pred is not None and not pred():
+            raise HarnessError("operation %r blocks in a sequential run" % (op,))
+        self.cf.check(op, self.real)
+
+    def private(self, op):
+        self.cf.check(op, self.real)
+
+
 class FWorker(env.BaseWorker):
     def __init__(self, root, snapshots=False, fault=None):
         super().__init__("T1")
@@ -64,7 +108,8 @@ class FWorker(env.BaseWorker):
                 if self.fault[2] and dest is not None:
                     self.persist[dest] = self.fault[1]
                 raise OSError(self.fault[1], os.strerror(self.fault[1]) + " (injected)", dest)
-            if dest is not None and dest in self.persist:
+            if dest is not None and dest in self.persist and not (
+                    self.persist[dest] == _errno.ENOSPC and op[0] == "remove"):
                 self.injected += 1
                 raise OSError(self.persist[dest], os.strerror(self.persist[dest]) + " (injected, persistent)", dest)
 
